@@ -371,8 +371,15 @@ def gen_C07(rng, tier):
             cmds.append(('iter', 'doc', p, rng.random() < 0.3, rng.random() < 0.2))
         sched = [rng.randrange(k) for _ in range(rng.choice([4, 8, 16, 30]))]
         cmds += [('next', i) for i in sched]
+        if rng.random() < 0.3:
+            # iter(it) - what a for loop or list() calls first - returns the iterator itself and re-arms nothing
+            for _j in range(rng.choice([1, 2])):
+                cmds.insert(rng.randint(k, len(cmds)), ('reiter', rng.randrange(k)))
         for i in range(k):
             cmds.append(('drain', i, 40, rng.choice([0, 1, 2, 5])))
+        if rng.random() < 0.2:
+            i = rng.randrange(k)
+            cmds += [('reiter', i), ('drain', i, 40, 1)]      # a second for loop over an exhausted iterator yields nothing
         out.append(Q({'doc': d, 'cmds': cmds}))
     # several live iterators started from ONE Match (nested searches share their source), advanced in turns (C07-m4)
     for _ in range(sized(tier, 300, 4000)):
